@@ -356,6 +356,7 @@ def lists(tier="quick", lens=range(1, 10)):
             for ctx, src in (
                 ("main-var", f"arr = {arr}\nk = d0.Setting\nv = arr[k]\ndb.Setting = v\ndb.On = v + k\n"),
                 ("func-var", f"def f(k):\n    arr = {arr}\n    v = arr[k]\n    db.Setting = v\n    return v + k\nwhile True:\n    db.On = f(d0.Setting)\n    db.Mode = f(d1.Setting)\n    yield_()\n"),
+                ("reuse", f"arr = {arr}\nk = d0.Setting\ndb.Setting = arr[k]\ndb.On = arr[-1] + k\ndb.Lock = arr[-2]\nfor v in arr:\n    db.Mode = v\n"),
                 ("loop-var", f"arr = {arr}\nn = 0\nwhile n < {ln}:\n    v = arr[n]\n    w = arr[{ln - 1} - n]\n    db.Setting = v\n    db.On = w + v + n\n    n += 1\n"),
             ):
                 out.append(mk("LIST", n, src, ln=ln, V=V, K=12, T=2, cap=256))
@@ -644,6 +645,22 @@ def w_namedslotwrite():
         'def f(a):\n    ArcFurnaces["S"].slot1.Occupied = a\nwhile True:\n    f(d0.Setting)\n    f(2)\n    yield_()\n',
     ]
     return [mk("W-F01l", i, s, V=[0, 1, 2, 3], K=6, T=2, cap=32) for i, s in enumerate(srcs)]
+
+
+def w_forstate():
+    """F-01m: a for-range loop keeps no private copy of its state: assigning to the loop variable, the bound variable or the step
+    variable inside the body, or reusing the loop variable in a nested loop, changes the iteration."""
+    forms = {
+ "loopvar-modified": "for i in range(4):\n    i += 2\n    db.On = i\n",
+ "bound-modified": "n = 3\nfor i in range(n):\n    n = 1\n    db.On = i\ndb.Setting = n\n",
+ "step-modified": "st = 1\nfor i in range(0, 4, st):\n    st = 2\n    db.On = i\n",
+ "for-nested-same-var": "for i in range(2):\n    for i in range(3):\n        db.On = i\n    db.Setting = i\n",
+    }
+    out = []
+    for i, (name, src) in enumerate(forms.items()):
+        out.append(mk("W-F01m", i, src, tag=name, V=[0, 1, 2, 3], K=12, T=2, cap=64))
+        out.append(mk("W-F01m", i, "def body(p0):\n" + ind(src) + "while True:\n    body(d0.Setting)\n    body(1)\n    yield_()\n", tag=name + "/func", V=[0, 1, 2, 3], K=14, T=2, cap=64))
+    return out
 
 
 def w_alias_lifetime():
@@ -1090,6 +1107,57 @@ SYNTAX_FORMS = {
  "comment-pytrapic-mid": "x = d0.Setting  # pytrapic: compact\ndb.Setting = x\n",
  "while-true-return-main": "x = d0.Setting\ndb.Setting = x\nreturn\n",
  "nested-func-3": "def a1(x):\n    return x + 1\ndef a2(x):\n    return a1(x) * 2\ndef a3(x):\n    return a2(x) + a1(x)\nwhile True:\n    db.Setting = a3(d0.Setting)\n    db.On = a3(1) + a2(2)\n    yield_()\n",
+ "bound-expr-modified": "n = d0.Setting\nfor i in range(n + 1):\n    n = 0\n    db.On = i\n",
+ "range-empty": "x = d0.Setting\nfor i in range(3, x):\n    db.On = i\ndb.Setting = 1\n",
+ "range-zero": "for i in range(0):\n    db.On = i\ndb.Setting = 1\n",
+ "range-neg": "for i in range(-2):\n    db.On = i\ndb.Setting = 1\n",
+ "range-neg-start": "for i in range(-2, 2):\n    db.On = i\n",
+ "range-step-neg-var-end": "e = d0.Setting\nfor i in range(3, e, -1):\n    db.On = i\n",
+ "dev-var": "dev = d0\ndev.Setting = 1\ndb.On = dev.On\n",
+ "dev-ternary": "db.Setting = d0.Setting if d1.On else 5\n",
+ "stack-ops": "push(d0.Setting)\npush(2)\ny = pop()\nz = pop()\ndb.Setting = y * 10 + z\n",
+ "stack-aug": "stack[3] = d0.Setting\nstack[3] += 1\ndb.Setting = stack[3]\n",
+ "list-assign": "arr = [1, 2, 3]\narr[0] = 5\ndb.Setting = arr[0] + d0.Setting\n",
+ "list-assign-rt": "arr = [1, 2, 3]\nk = d0.Setting\narr[k] = 5\ndb.Setting = arr[0]\n",
+ "min3": "x = d0.Setting\ndb.Setting = min(x, 1, 2)\n",
+ "max1": "x = d0.Setting\ndb.Setting = max(x)\n",
+ "round2": "x = d0.Setting\ndb.Setting = round(x / 3, 1)\n",
+ "sqrt-etc": "x = d0.Setting\ndb.Setting = sqrt(x) + floor(x / 2) + ceil(x / 2) + exp(0) + log(1)\n",
+ "trig": "x = d0.Setting\ndb.Setting = sin(x) + cos(x) + tan(0) + atan2(x, 1)\n",
+ "bool-arith": "x = d0.Setting\ndb.Setting = True + x + False\n",
+ "not-not": "x = d0.Setting\ndb.Setting = not not x\n",
+ "eq-true": "x = d0.Setting\nif x == True:\n    db.On = 1\nelse:\n    db.On = 0\n",
+ "ternary-cond": "x = d0.Setting\nif (1 if x > 1 else 0):\n    db.On = 1\n",
+ "shadow-builtin": "max = d0.Setting\ndb.Setting = max + 1\n",
+ "var-named-like-device": "Battery = d0.Setting\ndb.Setting = Battery\n",
+ "sleep-yield-func": "def f():\n    sleep(1)\n    yield_()\n    db.On = 1\nwhile True:\n    f()\n    f()\n",
+ "hash-var-name": "nm = 'Tank'\ndb.Setting = HASH(nm) + d0.Setting\n",
+ "nested-subscript": "arr = [[1, 2], [3, 4]]\ndb.Setting = arr[1][0] + d0.Setting\n",
+ "tuple-const": "t = (4, 5, 6)\ndb.Setting = t[d0.Setting]\n",
+ "list-of-hash-rt": "arr = [HASH('a'), HASH('b'), HASH('c')]\nBatteries[arr[d0.Setting]].On = 1\n",
+ "for-tuple": "for v in (1, 2):\n    db.On = v\n",
+ "for-list-var": "arr = [3, 4]\nfor v in arr:\n    db.On = v + d0.Setting\n",
+ "for-enumerate": "for i, v in enumerate([5, 6]):\n    db.On = i + v\n",
+ "while-nested-break-outer-flag": "x = d0.Setting\ndone = 0\nn = 0\nwhile n < 3 and done == 0:\n    n += 1\n    if n == x:\n        done = 1\ndb.Setting = n\n",
+ "if-assign-both": "x = d0.Setting\nif x > 1:\n    y = 1\nelse:\n    y = 2\ndb.Setting = y\n",
+ "if-assign-one": "x = d0.Setting\ny = 0\nif x > 1:\n    y = 1\ndb.Setting = y\n",
+ "var-reuse-types": "x = d0.Setting\nx = x > 1\ndb.Setting = x\n",
+ "self-assign": "x = d0.Setting\nx = x\ndb.Setting = x\n",
+ "chain-copy": "a = d0.Setting\nb = a\nc = b\ndb.Setting = c + 1\ndb.On = a\n",
+ "copy-then-modify-copy": "a = d0.Setting\nb = a\nb = b + 1\ndb.Setting = a * 10 + b\n",
+ "param-copy-modify": "def f(p):\n    q = p\n    q = q + 1\n    db.Setting = p * 10 + q\nwhile True:\n    f(d0.Setting)\n    f(1)\n    yield_()\n",
+ "global-copy": "g = d0.Setting\ndef f():\n    h = g\n    h = h + 1\n    db.Setting = g * 10 + h\nwhile True:\n    f()\n    f()\n    yield_()\n",
+ "expr-stmt": "x = d0.Setting\nx + 1\ndb.Setting = x\n",
+ "call-result-unused": "def f(a):\n    db.On = a\n    return a + 1\nwhile True:\n    f(d0.Setting)\n    f(1)\n    yield_()\n",
+ "return-in-main-loop": "while True:\n    x = d0.Setting\n    if x > 1:\n        break\n    db.On = x\n    yield_()\ndb.Setting = 9\n",
+ "deep-nesting": "x = d0.Setting\nif x > 0:\n    if x > 1:\n        if x > 2:\n            db.On = 3\n        else:\n            db.On = 2\n    else:\n        db.On = 1\nelse:\n    db.On = 0\n",
+ "long-and-or": "x = d0.Setting\ny = d1.Setting\ndb.Setting = (x > 0 and y > 0) or (x == 0 and y == 0)\n",
+ "cmp-ne-chain-val": "x = d0.Setting\ndb.Setting = (x != 1) * 2 + (x >= 2) + (x <= 0)\n",
+ "neg-zero": "x = d0.Setting\ndb.Setting = -0.0 * x\n",
+ "big-shift": "x = d0.Setting\ndb.Setting = 1 << (x + 30)\n",
+ "mod-float": "x = d0.Setting\ndb.Setting = (x + 0.5) % 1\n",
+ "pow-zero": "x = d0.Setting\ndb.Setting = x ** 0 + 0 ** x\n",
+ "div-zero-rt": "x = d0.Setting\ndb.Setting = 1 / x\n",
 }
 
 
